@@ -77,6 +77,9 @@ def run(ctx):
     ctx.require(good, 'C17-R1', 'build:one-hit_windows', 'build() calls self.hit_windows() exactly once on the unmodified builder', build.where(),
                 bad='build() calls hit_windows %d time(s) / not on `self` itself' % len(calls))
     rv = prov.prov_of(build).return_value()
+    # private helper methods of the builder (`self.resolve_hp()`) are read through; hit_windows() and the setters are anchors and stay calls
+    PRIVATE = lambda f_: (f_.get('impl_adt') or '') == B and f_.get('name') not in ('hit_windows', 'build', 'difficulty', 'new', 'map', 'mode') + ATTRS4  # noqa: E731
+    rv = prov.inline_all(F, rv, depth=2, _seen=(build.path,), only=PRIVATE)
     hwv = prov.strip(prov.project_field(rv, 'hit_windows'), names=set())
     ctx.require(hwv[0] == 'call' and hwv[1].get('name') == 'hit_windows' and as_param_path(hwv[2][0], through_calls=False) == (1, ()),
                 'C17-R1', 'build:embeds', 'BeatmapAttributes.hit_windows = self.hit_windows()', build.where(),
@@ -148,7 +151,7 @@ def run(ctx):
         ctx.require(getters == {getter}, 'C17-R3', 'difficulty:' + fld, 'builder.%s <- difficulty.%s()' % (fld, getter), diff.where(),
                     bad='BeatmapAttributesBuilder::difficulty fills `%s` from %s' % (fld, sorted(getters)))
     # ---- R4 triangle
-    hwr = prov.prov_of(hw).return_value()
+    hwr = prov.inline_all(F, prov.prov_of(hw).return_value(), depth=2, _seen=(hw.path,), only=PRIVATE)
     for x in ATTRS4:
         setter = F.method(B, x, inherent_only=True)
         if setter is None:
